@@ -125,8 +125,15 @@ TopDecls(e) == {
         N("FuncLit", "", <<FT(<<Fld(<<A>>, TId)>>, Nil), Body(e)>>)>>) }
 DeclSet == UNION {TopDecls(e) : e \in Pool}
 DeclNbrs == {N("GenDecl", "var", <<VSpec(<<Id("z")>>, TId, <<>>)>>), FuncD("main", <<>>, Nil, Body(A))}
+TagSpec(names, ty, tag) == N("ValueSpec", "", <<Lst(",", names), ty, Lit(tag), Lst(",", <<>>)>>)
 ClassVars == {
   N("GenDecl", "var(;", <<VSpec(<<A>>, TId, <<>>)>>),
+  \* tagged fields: a single spec in parentheses (printer.spec, not valueSpec), an embedded one, two tagged specs,
+  \* and a field declared without grouping parentheses
+  N("GenDecl", "var(;", <<TagSpec(<<A>>, TId, "\"s\"")>>),
+  N("GenDecl", "var(;", <<TagSpec(<<>>, N("StarExpr", "", <<TId>>), "\"p\"")>>),
+  N("GenDecl", "var(;", <<TagSpec(<<A, Bb>>, TId, "\"s\""), TagSpec(<<Id("c")>>, TId, "\"p\"")>>),
+  N("GenDecl", "var", <<TagSpec(<<A>>, TId, "\"s\"")>>),
   N("GenDecl", "var(;", <<N("ValueSpec", "", <<Lst(",", <<A>>), TId, Lit("\"s\""), Lst(",", <<>>)>>),
                           N("ValueSpec", "", <<Lst(",", <<>>), N("StarExpr", "", <<TId>>), Nil, Lst(",", <<>>)>>),
                           VSpec(<<Bb, Id("c")>>, TId, <<>>)>>) }
